@@ -126,8 +126,17 @@ func (f *MapField) GenReadFrom() (string, error) {
 				l := enc.TLNum(0)
 				{{call .GenTlvNumberDecode "typ"}}
 				{{call .GenTlvNumberDecode "l"}}
-				if typ != {{.M.ValField.TypeNum}} {
-					return nil, enc.ErrFailToParse{TypeNum: {{.M.KeyField.TypeNum}}, Err: enc.ErrUnrecognizedField{TypeNum: typ}}
+				// the value follows its key; unrecognized elements in between are treated as anywhere else
+				for typ != {{.M.ValField.TypeNum}} {
+					if !ignoreCritical && ((typ <= 31) || ((typ & 1) == 1)) {
+						return nil, enc.ErrFailToParse{TypeNum: {{.M.KeyField.TypeNum}}, Err: enc.ErrUnrecognizedField{TypeNum: typ}}
+					}
+					err = reader.Skip(int(l))
+					if err != nil {
+						return nil, enc.ErrFailToParse{TypeNum: {{.M.KeyField.TypeNum}}, Err: err}
+					}
+					{{call .GenTlvNumberDecode "typ"}}
+					{{call .GenTlvNumberDecode "l"}}
 				}
 				{{.M.ValField.GenReadFrom}}
 				_ = value
